@@ -215,6 +215,9 @@ func famPipeline(dir string, seed int64, tier string) {
 		&ri2,
 		[]any{[]any{&rp}, &ri1, &ri1},
 		func() (any, any, int) { return &ri1, &rp, 1 },
+		func() (any, any) { return 1, nil },
+		func() (any, any, any) { return "a", nil, nil },
+		[]any{func() (any, any) { return 2, nil }, nil, 3},
 	}
 	// values nested deeper than any fixed frame stack an iterator might preallocate (33, 65, 129 levels ...),
 	// with a sibling next to every nested value so that a repeated or dropped subtree shows
@@ -232,7 +235,7 @@ func famPipeline(dir string, seed int64, tier string) {
 		}
 		directed = append(directed, v)
 	}
-	nShallow := 6
+	nShallow := 9
 	for di, v := range directed {
 		ts, err := marshalTokens(v, nil)
 		if err != nil {
